@@ -53,11 +53,11 @@ where
     // Let the streams tell us when they are no longer running.
     pub(super) request_end_recv: mpsc::UnboundedReceiver<StreamId>,
     pub(super) request_end_send: mpsc::UnboundedSender<StreamId>,
-    // Has a GOAWAY frame been sent? If so, this StreamId is the last we are willing to accept.
+    // Has a GOAWAY frame been sent? If so, requests with this StreamId or a greater one are rejected.
     pub(super) sent_closing: Option<StreamId>,
     // Has a GOAWAY frame been received? If so, this is PushId the last the remote will accept.
     pub(super) recv_closing: Option<PushId>,
-    // The id of the last stream received by this connection.
+    // The largest id of the request streams accepted by this connection so far.
     pub(super) last_accepted_stream: Option<StreamId>,
 }
 
@@ -158,10 +158,12 @@ where
     /// See [connection shutdown](https://www.rfc-editor.org/rfc/rfc9114.html#connection-shutdown) for more information.
     #[cfg_attr(feature = "tracing", instrument(skip_all, level = "trace"))]
     pub async fn shutdown(&mut self, max_requests: usize) -> Result<(), ConnectionError> {
-        let max_id = self
-            .last_accepted_stream
-            .map(|id| id + max_requests)
-            .unwrap_or(StreamId::FIRST_REQUEST);
+        // The identifier in a GOAWAY frame is exclusive: requests with this or a greater stream
+        // id are rejected. Announce the id `max_requests` requests past the largest one accepted.
+        let max_id = match self.last_accepted_stream {
+            Some(id) => id + max_requests.saturating_add(1),
+            None => StreamId::FIRST_REQUEST + max_requests,
+        };
 
         self.inner.shutdown(&mut self.sent_closing, max_id).await
     }
@@ -200,7 +202,7 @@ where
                     // incoming requests not belonging to the grace interval. It's possible that
                     // some acceptable request streams arrive after rejected requests.
                     if let Some(max_id) = self.sent_closing {
-                        if s.send_id() > max_id {
+                        if s.send_id() >= max_id {
                             s.stop_sending(Code::H3_REQUEST_REJECTED.value());
                             s.reset(Code::H3_REQUEST_REJECTED.value());
                             if self.poll_requests_completion(cx).is_ready() {
@@ -209,7 +211,8 @@ where
                             continue;
                         }
                     }
-                    self.last_accepted_stream = Some(s.send_id());
+                    // Streams can arrive out of order, keep the largest id.
+                    self.last_accepted_stream = self.last_accepted_stream.max(Some(s.send_id()));
                     self.ongoing_streams.insert(s.send_id());
                     Poll::Ready(Ok(Some(s)))
                 }
